@@ -87,7 +87,9 @@ package capnp
 //@     sOff(rawPointer(LE64(l.seg.data, int(l.off)-8))) == n &&
 //@     8*M(sDataWords(rawPointer(LE64(l.seg.data, int(l.off)-8)))) == M(l.size.DataSize) &&
 //@     sPtrWords(rawPointer(LE64(l.seg.data, int(l.off)-8))) == l.size.PointerCount)
-//@   ensures fresh: implies(err == nil, freshAt(l.seg, l.off, listBytes(l)))
+//@   -- (freshAt(l.seg, l.off, listBytes(l)), stated in two parts: placement and zero content)
+//@   ensures freshplace: implies(err == nil, l.off&7 == 0 && M(l.off)+listBytes(l) <= M(len(l.seg.data)) && M(len(l.seg.data)) < M(l.off)+listBytes(l)+8)
+//@   ensures freshzero: implies(err == nil, forall(int(l.off), len(l.seg.data), func(j int) bool { return l.seg.data[j] == 0 }))
 //@   ensures untouched: implies(err == nil, bytesUnchangedExcept(l.seg.data, int(l.off)-8, len(l.seg.data)))
 
 //@   assert after "s.writeRawPointer(addr" stillzero: M(addr)+8 <= M(len(s.data)) && forall(int(addr)+8, len(s.data), func(j int) bool { return s.data[j] == 0 })
